@@ -352,6 +352,42 @@ theorem reachC_related {c0 : RQJ.Config} {s : SysC N} (h : ReachC c0 s) : ∃ cs
     · subst e; exact ⟨_, cr, rc'⟩
     · exact ⟨cs', .step cr cst, rc'⟩
 
+/-! ### C15 with membership changes for the handler-level relation: every reachable L1C state, on node state only -/
+
+theorem L1C_election_safety {c0 : RQJ.Config} {s : SysC N} (h : ReachC c0 s) (i j : Fin N)
+    (hi : (s.l1.nodes i).role = .leader) (hj : (s.l1.nodes j).role = .leader) (ht : (s.l1.nodes i).term = (s.l1.nodes j).term) : i = j := by
+  obtain ⟨cs, cr, rc⟩ := reachC_related h
+  exact conf_election_safety cr i j (by rw [rc.r.role]; exact hi) (by rw [rc.r.role]; exact hj) (by rw [rc.r.term, rc.r.term]; exact ht)
+
+theorem L1C_log_matching {c0 : RQJ.Config} {s : SysC N} (h : ReachC c0 s) (i j : Fin N) (k : Nat) (h1 : 1 ≤ k)
+    (hi : k ≤ (s.l1.nodes i).log.length) (hj : k ≤ (s.l1.nodes j).log.length)
+    (ht : termAt (s.l1.nodes i).log k = termAt (s.l1.nodes j).log k) : (s.l1.nodes i).log.take k = (s.l1.nodes j).log.take k := by
+  obtain ⟨cs, cr, rc⟩ := reachC_related h
+  have := conf_log_matching cr i j k h1 (by rw [rc.r.log]; exact hi) (by rw [rc.r.log]; exact hj) (by rw [rc.r.log, rc.r.log]; exact ht)
+  rwa [rc.r.log, rc.r.log] at this
+
+theorem L1C_state_machine_safety {c0 : RQJ.Config} {s : SysC N} (h : ReachC c0 s) (i j : Fin N) (m : Nat)
+    (hi : m ≤ (s.l1.nodes i).commit) (hj : m ≤ (s.l1.nodes j).commit) : (s.l1.nodes i).log.take m = (s.l1.nodes j).log.take m := by
+  obtain ⟨cs, cr, rc⟩ := reachC_related h
+  have := conf_state_machine_safety cr i j m (by rw [rc.r.commit]; exact hi) (by rw [rc.r.commit]; exact hj)
+  rwa [rc.r.log, rc.r.log] at this
+
+theorem L1C_leader_completeness {c0 : RQJ.Config} {s : SysC N} (h : ReachC c0 s) (i j : Fin N)
+    (hl : (s.l1.nodes i).role = .leader) (ht : (s.l1.nodes j).term ≤ (s.l1.nodes i).term) :
+    (s.l1.nodes j).commit ≤ (s.l1.nodes i).log.length ∧
+    (s.l1.nodes i).log.take (s.l1.nodes j).commit = (s.l1.nodes j).log.take (s.l1.nodes j).commit := by
+  obtain ⟨cs, cr, rc⟩ := reachC_related h
+  have := conf_leader_holds_committed cr i j (by rw [rc.r.role]; exact hl) (by rw [rc.r.term, rc.r.term]; exact ht)
+  rwa [rc.r.log, rc.r.log, rc.r.commit] at this
+
+/-- the applied index of a reachable L1C node never exceeds its commit index -/
+theorem L1C_applied_le {c0 : RQJ.Config} {s : SysC N} (h : ReachC c0 s) (i : Fin N) : s.applied i ≤ (s.l1.nodes i).commit := by
+  obtain ⟨cs, cr, rc⟩ := reachC_related h
+  have := (cinv_reach cr).app_le i
+  rwa [rc.applied, rc.r.commit] at this
+
+#print axioms L1C_election_safety
+#print axioms L1C_leader_completeness
 #print axioms simC
 #print axioms reachC_related
 end RHC
